@@ -101,11 +101,59 @@ func thesaurusQueries(c *ctx, seg segment.Segment, spec sx.V) (bad string) {
 			}
 			c.Count("thesaurus_listings")
 		}
-		// unknown term
 		th, err := ts.Thesaurus(name)
 		if err != nil {
 			return err.Error()
 		}
+		// ranged listings [start, end) with start < end taken from the thesaurus' own terms (the
+		// first, the greatest, neighbours) or just beside them; end may be absent
+		if nt := len(t.L[1].L); nt > 0 {
+			var all []string
+			for _, te := range t.L[1].L {
+				all = append(all, string(te.L[0].B))
+			}
+			for q := 0; q < 4; q++ {
+				si := c.R.Intn(nt)
+				if q == 0 {
+					si = nt - 1 // the greatest term
+				}
+				start := all[si]
+				if c.R.Chance(4) {
+					start += "\x00" // just above an existing term
+				}
+				var end []byte
+				endD := "absent"
+				if si+1 < nt && c.R.Bool() {
+					e := all[si+1+c.R.Intn(nt-si-1)]
+					if e > start {
+						end, endD = []byte(e), fmt.Sprintf("%q", e)
+					}
+				}
+				var want []string
+				for _, k := range all {
+					if k >= start && (end == nil || k < string(end)) {
+						want = append(want, k)
+					}
+				}
+				var got []string
+				it := th.AutomatonIterator(nil, []byte(start), end)
+				for {
+					e, err := it.Next()
+					if err != nil {
+						return fmt.Sprintf("thesaurus %q: listing the range [%q, %s): error %v", name, start, endD, err)
+					}
+					if e == nil {
+						break
+					}
+					got = append(got, e.Term)
+				}
+				if fmt.Sprint(got) != fmt.Sprint(want) {
+					return fmt.Sprintf("thesaurus %q with terms %q: listing the range [%q, %s) yields %q, want %q", name, all, start, endD, got, want)
+				}
+				c.Count("thesaurus_range_listings")
+			}
+		}
+		// unknown term
 		sl, err := th.SynonymsList([]byte("\x01no-such-term"), nil, nil)
 		if err != nil {
 			return "SynonymsList(unknown term) error " + err.Error()
@@ -119,7 +167,7 @@ func thesaurusQueries(c *ctx, seg segment.Segment, spec sx.V) (bad string) {
 		var preI segment.SynonymsIterator
 		var trail []string
 		var keybuf []byte
-		for q := 0; q < 8; q++ {
+		for q := 0; q < 14; q++ {
 			tgt, term := th, []string{"\x01no-such-term", "\x01bc", "\x01bcd", "\x01bcde", "\x01"}[c.R.Intn(5)]
 			var want []zh.SynPair
 			switch k := c.R.Intn(4); {
@@ -155,6 +203,25 @@ func thesaurusQueries(c *ctx, seg segment.Segment, spec sx.V) (bad string) {
 			preL = l
 			it := l.Iterator(preI)
 			preI = it
+			if c.R.Chance(3) {
+				// the caller looks at the first pair only and moves on to its next lookup
+				sy, err := it.Next()
+				if err != nil {
+					return fmt.Sprintf("thesaurus %q, lookups %v each recycling the previous list: error %v", name, trail, err)
+				}
+				ok := sy == nil && len(want) == 0
+				for _, w := range want {
+					if sy != nil && w.Syn == sy.Term() && w.Doc == uint64(sy.Number()) {
+						ok = true
+					}
+				}
+				if !ok {
+					return fmt.Sprintf("thesaurus %q, lookups %v each recycling the previous lookup's list and iterator: the first pair of the last one is %v, want one of %v", name, trail, sy, want)
+				}
+				trail[len(trail)-1] += " (abandoned after the first pair)"
+				c.Count("recycled_lookups_abandoned_early")
+				continue
+			}
 			var got []zh.SynPair
 			for {
 				sy, err := it.Next()
